@@ -44,8 +44,26 @@ theorem pc_roundtrip : ∀ (t : Tree) (s : Shape) (r : Bytes), HasShape s t → 
     cases s <;> simp only [HasShape] at h
     simp [pcEnc, pcDec, List.append_assoc, varint_roundtrip64 _ h.1, pc_roundtrip_all xs _ r h.2]
   | .tuple xs, s, r, h => by
-    cases s <;> simp only [HasShape] at h
-    simp [pcEnc, pcDec, pc_roundtrip_list xs _ r h]
+    cases s with
+    | tuple fs =>
+      simp only [HasShape] at h
+      simp [pcEnc, pcDec, pc_roundtrip_list xs _ r h]
+    | sel al lg a b =>
+      rcases xs with _ | ⟨y, _ | ⟨x, _ | ⟨z, zs⟩⟩⟩
+      · simp [HasShape] at h
+      · simp [HasShape] at h
+      · cases y <;> try (simp [HasShape] at h; done)
+        rename_i bits
+        simp only [HasShape] at h
+        obtain ⟨hb, hx⟩ := h
+        by_cases hs : selLegacy al lg bits = true
+        · simp only [hs, if_true] at hx
+          simp [pcEnc, pcEncList, pcDec, List.append_assoc, varint_roundtrip32 _ hb, hs, pc_roundtrip x a r hx]
+        · have hs' : selLegacy al lg bits = false := by simpa using hs
+          simp only [hs', Bool.false_eq_true, if_false] at hx
+          simp [pcEnc, pcEncList, pcDec, List.append_assoc, varint_roundtrip32 _ hb, hs', pc_roundtrip x b r hx]
+      · simp [HasShape] at h
+    | _ => simp only [HasShape] at h
   | .variant idx p, s, r, h => by
     cases s <;> simp only [HasShape] at h
     simp [pcEnc, pcDec, List.append_assoc, varint_roundtrip32 _ h.1, pc_roundtrip_variant p _ idx idx r h.2]
@@ -115,8 +133,26 @@ theorem bc_roundtrip : ∀ (t : Tree) (s : Shape) (r : Bytes), HasShape s t → 
     cases s <;> simp only [HasShape] at h
     simp [bcEnc, bcDec, List.append_assoc, le_roundtrip64 _ h.1, bc_roundtrip_all xs _ r h.2]
   | .tuple xs, s, r, h => by
-    cases s <;> simp only [HasShape] at h
-    simp [bcEnc, bcDec, bc_roundtrip_list xs _ r h]
+    cases s with
+    | tuple fs =>
+      simp only [HasShape] at h
+      simp [bcEnc, bcDec, bc_roundtrip_list xs _ r h]
+    | sel al lg a b =>
+      rcases xs with _ | ⟨y, _ | ⟨x, _ | ⟨z, zs⟩⟩⟩
+      · simp [HasShape] at h
+      · simp [HasShape] at h
+      · cases y <;> try (simp [HasShape] at h; done)
+        rename_i bits
+        simp only [HasShape] at h
+        obtain ⟨hb, hx⟩ := h
+        by_cases hs : selLegacy al lg bits = true
+        · simp only [hs, if_true] at hx
+          simp [bcEnc, bcEncList, bcDec, List.append_assoc, le_roundtrip32 _ hb, hs, bc_roundtrip x a r hx]
+        · have hs' : selLegacy al lg bits = false := by simpa using hs
+          simp only [hs', Bool.false_eq_true, if_false] at hx
+          simp [bcEnc, bcEncList, bcDec, List.append_assoc, le_roundtrip32 _ hb, hs', bc_roundtrip x b r hx]
+      · simp [HasShape] at h
+    | _ => simp only [HasShape] at h
   | .variant idx p, s, r, h => by
     cases s <;> simp only [HasShape] at h
     simp [bcEnc, bcDec, List.append_assoc, le_roundtrip32 _ h.1, bc_roundtrip_variant p _ idx idx r h.2]
